@@ -141,6 +141,6 @@ def check(case, out):
 
 
 FACETS = [
-    Facet("exact", lambda tier: cases(("frac",)), check, quick=1500, thorough=30000, rule="Fraction knots"),
-    Facet("float", lambda tier: cases(("float", "npfloat")), check, quick=500, thorough=8000, rule="float knots"),
+    Facet("exact", lambda tier: cases(("frac",)), check, quick=3000, thorough=30000, rule="Fraction knots"),
+    Facet("float", lambda tier: cases(("float", "npfloat")), check, quick=1000, thorough=8000, rule="float knots"),
 ]
